@@ -154,6 +154,19 @@ def gen_boundary(rng, engine, tier):
                 yield 'said-twice', v[:e_] + ', ' + v[s_:e_] + v[e_:]
                 if not quick or rng.random() < 0.3:
                     yield 'said-twice', v[:e_] + ' ' + v[s_:e_] + v[e_:]
+    # the whole ARGUMENT-LIST grammar: every sequence of up to 4 slots, each slot positional / empty / named (two names, so
+    # that a name can come twice, adjacent or apart) / a mapping with a non-keyword key, for every kind of caller: function,
+    # method, delegate call on a variable and on a parenthesised value, list, dictionary, indexer.  The semantic actions
+    # run while REDUCING the call are part of parsing; on all engine flavours.
+    slots = ['1', '', 'a => 2', 'b => $', 'a => null', "'a' => 3"]
+    callers = ['f(%s)', '$.f(%s)', 'dict(%s)', '$x(%s)', '(f)(%s)', '[%s]', '{%s}', '$[%s]', 'f(1).g(%s)', 'f(g(%s), a => 1)']
+    for n in range(0, 5):
+        for combo in itertools.product(slots, repeat=n):
+            if n == 4 and quick and rng.random() < 0.5:
+                continue
+            body = ', '.join(combo)
+            for c in (callers if n <= 3 else rng.sample(callers, 3)):
+                yield 'arglist', c % body
     for _ in range(100 if quick else 1500):
         k = rng.randrange(2, 8)
         parts = [rng.choice(ATOMS) for _ in range(k)]
@@ -341,7 +354,7 @@ def run(env, res):
             continue
         seen.add((kind, text))
         for ename, eng in engines.items():
-            if ename != 'default' and kind not in ('seq1', 'seq2', 'mut-del', 'soup', 'escape', 'boundary-alone', 'boundary-substituted', 'said-twice'):
+            if ename != 'default' and kind not in ('seq1', 'seq2', 'mut-del', 'soup', 'escape', 'boundary-alone', 'boundary-substituted', 'said-twice', 'arglist'):
                 continue
             signal.alarm(20)
             try:
